@@ -341,16 +341,26 @@ def quic_level_flights(ctx, thorough, r, only=None):
                 s.close_taps()
             completed = any(type(e).__name__ == "HandshakeCompleted" for _, e in s.client.events)
             ctx.count(("quic-flight", tuple(seq)), True)
-            # the client completes as soon as a legal flight has been processed
+            # The whole forged flight travels in one CRYPTO stream, so tls.handle_message processes all of
+            # it in one call: a legal flight followed by further messages (e.g. [8, 11, 15, 20, 13], a
+            # post-handshake CertificateRequest nobody offered) raises unexpected_message inside that call,
+            # BEFORE the connection looks at the TLS state — the client then closes with CRYPTO_ERROR and
+            # rightly never reports HandshakeCompleted.  Had the trailing message come in a later packet
+            # the client would complete first and close afterwards.  Both are correct, so:
+            #   exactly a legal flight        -> HandshakeCompleted must appear
+            #   no legal prefix at all        -> HandshakeCompleted must not appear
+            #   legal prefix + trailing junk  -> either (the trailing message must only never be accepted,
+            #                                    which the POST_HANDSHAKE row of the state x type table checks)
+            exact = seq in LEGAL[False]
             legal = any(seq[:n] in LEGAL[False] for n in range(len(seq) + 1))
             if completed and not legal:
                 done_illegal += 1
                 ctx.witness(f"client QuicConnection reported HandshakeCompleted on the illegal server flight {seq}",
                             {"kind": "quic-flight", "flight": seq, "messages": [m.hex() for m in plan.get("msgs", [])]},
                             {"oracle": "illegal-flight-completes", "level": "quic", "flight": seq})
-            if legal and not completed:
+            if exact and not completed:
                 ctx.witness(f"client QuicConnection did not complete on the legal flight {seq}: "
-                            f"{[e for _, e in s.client.events][-1:]}", {"flight": seq},
+                            f"{[e for _, e in s.client.events][-1:]}", {"kind": "quic-flight", "flight": seq},
                             {"oracle": "legal-flight-refused", "level": "quic"})
             if s.client.raised:
                 ctx.witness(f"client QuicConnection raised on flight {seq}: {s.client.raised}", {"flight": seq},
